@@ -478,6 +478,10 @@ func leanStrListList(l [][]string) string {
 	return "[" + strings.Join(out, ", ") + "]"
 }
 
+// dagFacts - structural facts of the dag package that the scheduler model relies on.  They are stated so that they
+// survive the extraction of helpers and the grouping of locals into a struct: channels are found wherever they are
+// made and classified by their element type, goroutine bodies are followed into the functions they call, status
+// writes are reported by the constant written and by whether they sit in a goroutine body.
 func dagFacts(ff *factFile) (doneCap, semCap string, statusWrites []string, errAppends []string, goFirst []string, defaults map[string]string) {
 	var decls []ast.Decl
 	for _, f := range ff.pkg("dag") {
@@ -485,42 +489,148 @@ func dagFacts(ff *factFile) (doneCap, semCap string, statusWrites []string, errA
 	}
 	defaults = map[string]string{}
 	seenAppend := map[string]bool{}
+	funcs := map[string]*ast.FuncDecl{}
 	for _, d := range decls {
-		fd, ok := d.(*ast.FuncDecl)
-		if !ok || fd.Body == nil {
-			continue
+		if fd, ok := d.(*ast.FuncDecl); ok && fd.Body != nil {
+			funcs[fd.Name.Name] = fd
 		}
+	}
+	lastName := func(e ast.Expr) string {
+		s := exprStr(ff.fset, e)
+		if i := strings.LastIndex(s, "."); i >= 0 {
+			s = s[i+1:]
+		}
+		return s
+	}
+	// 1. channels: every make(chan T[, cap]) of the package
+	semNames := map[string]bool{}
+	var doneCaps, semCaps []string
+	noteMake := func(name string, e ast.Expr) {
+		ce, ok := e.(*ast.CallExpr)
+		if !ok {
+			return
+		}
+		id, ok := ce.Fun.(*ast.Ident)
+		if !ok || id.Name != "make" || len(ce.Args) == 0 {
+			return
+		}
+		ct, ok := ce.Args[0].(*ast.ChanType)
+		if !ok {
+			return
+		}
+		c := "0"
+		if len(ce.Args) > 1 {
+			c = exprStr(ff.fset, ce.Args[1])
+		}
+		if exprStr(ff.fset, ct.Value) == "struct{}" {
+			semCaps = append(semCaps, c)
+			semNames[name] = true
+		} else {
+			doneCaps = append(doneCaps, c)
+		}
+	}
+	for _, fd := range funcs {
+		ast.Inspect(fd.Body, func(n ast.Node) bool {
+			switch x := n.(type) {
+			case *ast.AssignStmt:
+				for i, l := range x.Lhs {
+					if i < len(x.Rhs) {
+						noteMake(lastName(l), x.Rhs[i])
+					}
+				}
+			case *ast.KeyValueExpr:
+				if k, ok := x.Key.(*ast.Ident); ok {
+					noteMake(k.Name, x.Value)
+				}
+			case *ast.ValueSpec:
+				for i, nm := range x.Names {
+					if i < len(x.Values) {
+						noteMake(nm.Name, x.Values[i])
+					}
+				}
+			}
+			return true
+		})
+	}
+	uniqJoin := func(l []string) string {
+		sort.Strings(l)
+		out := []string{}
+		for i, x := range l {
+			if i == 0 || x != l[i-1] {
+				out = append(out, x)
+			}
+		}
+		return strings.Join(out, "|")
+	}
+	doneCap, semCap = uniqJoin(doneCaps), uniqJoin(semCaps)
+	// 2. goroutine bodies: function literals, or the declared function / method a `go` statement calls
+	goBodies := map[*ast.BlockStmt]bool{}
+	goFuncs := map[string]bool{}
+	for _, fd := range funcs {
+		ast.Inspect(fd.Body, func(n ast.Node) bool {
+			g, ok := n.(*ast.GoStmt)
+			if !ok {
+				return true
+			}
+			switch f := g.Call.Fun.(type) {
+			case *ast.FuncLit:
+				goBodies[f.Body] = true
+			default:
+				if t, ok := funcs[lastName(f)]; ok {
+					goBodies[t.Body] = true
+					goFuncs[t.Name.Name] = true
+				}
+			}
+			return true
+		})
+	}
+	for body := range goBodies {
+		stmts := []string{}
+		for i, s := range body.List {
+			if i >= 6 {
+				break
+			}
+			switch y := s.(type) {
+			case *ast.SendStmt:
+				nm := lastName(y.Chan)
+				if semNames[nm] {
+					nm = "semaphore"
+				}
+				stmts = append(stmts, "send "+nm)
+			case *ast.DeferStmt:
+				stmts = append(stmts, "defer "+exprStr(ff.fset, y.Call.Fun))
+			case *ast.ExprStmt:
+				stmts = append(stmts, exprStr(ff.fset, y.X))
+			default:
+				stmts = append(stmts, fmt.Sprintf("%T", s))
+			}
+		}
+		goFirst = append(goFirst, strings.Join(stmts, "; "))
+	}
+	sort.Strings(goFirst)
+	// 3. status writes: the constant written, and "goroutine" when the write sits in a goroutine body
+	for _, fd := range funcs {
+		inGo := []ast.Node{}
 		ast.Inspect(fd.Body, func(n ast.Node) bool {
 			switch x := n.(type) {
 			case *ast.AssignStmt:
 				for i, l := range x.Lhs {
 					ls := exprStr(ff.fset, l)
 					if strings.HasSuffix(ls, ".status") && i < len(x.Rhs) {
-						// (function, status constant): which function moves a vertex to which status - the
-						// spelling of the left-hand side (variable names) is irrelevant
-						statusWrites = append(statusWrites, fd.Name.Name+": "+exprStr(ff.fset, x.Rhs[i]))
+						where := "scheduler"
+						if goFuncs[fd.Name.Name] {
+							where = "goroutine"
+						}
+						for body := range goBodies {
+							if x.Pos() >= body.Pos() && x.End() <= body.End() {
+								where = "goroutine"
+							}
+						}
+						statusWrites = append(statusWrites, where+": "+exprStr(ff.fset, x.Rhs[i]))
 					}
 					if ls == "g.errs.Errors" && !seenAppend[fd.Name.Name] {
 						seenAppend[fd.Name.Name] = true
 						errAppends = append(errAppends, fd.Name.Name)
-					}
-					if fd.Name.Name == "Run" && i < len(x.Rhs) {
-						if ce, ok := x.Rhs[i].(*ast.CallExpr); ok {
-							if id, ok := ce.Fun.(*ast.Ident); ok && id.Name == "make" {
-								if _, ok := ce.Args[0].(*ast.ChanType); ok {
-									c := "0"
-									if len(ce.Args) > 1 {
-										c = exprStr(ff.fset, ce.Args[1])
-									}
-									if ls == "done" {
-										doneCap = c
-									}
-									if ls == "semaphore" {
-										semCap = c
-									}
-								}
-							}
-						}
 					}
 				}
 			case *ast.KeyValueExpr:
@@ -529,31 +639,10 @@ func dagFacts(ff *factFile) (doneCap, semCap string, statusWrites []string, errA
 						defaults[k.Name] = exprStr(ff.fset, x.Value)
 					}
 				}
-			case *ast.GoStmt:
-				if fd.Name.Name == "Run" {
-					if fl, ok := x.Call.Fun.(*ast.FuncLit); ok {
-						stmts := []string{}
-						for i, s := range fl.Body.List {
-							if i >= 6 {
-								break
-							}
-							switch y := s.(type) {
-							case *ast.SendStmt:
-								stmts = append(stmts, "send "+exprStr(ff.fset, y.Chan))
-							case *ast.DeferStmt:
-								stmts = append(stmts, "defer "+exprStr(ff.fset, y.Call.Fun))
-							case *ast.ExprStmt:
-								stmts = append(stmts, exprStr(ff.fset, y.X))
-							default:
-								stmts = append(stmts, fmt.Sprintf("%T", s))
-							}
-						}
-						goFirst = append(goFirst, strings.Join(stmts, "; "))
-					}
-				}
 			}
 			return true
 		})
+		_ = inGo
 	}
 	sort.Strings(statusWrites)
 	uniq := statusWrites[:0]
@@ -563,6 +652,7 @@ func dagFacts(ff *factFile) (doneCap, semCap string, statusWrites []string, errA
 		}
 	}
 	statusWrites = uniq
+	sort.Strings(errAppends)
 	return
 }
 
@@ -680,7 +770,7 @@ func runFactgen(repo, outPath string) int {
 	b.WriteString("def semaphoreCap : String := " + leanStr(semCap) + "\n")
 	b.WriteString("def statusWrites : List String := " + leanStrList(sw) + "\n")
 	b.WriteString("def errsWriters : List String := " + leanStrList(ea) + "\n")
-	b.WriteString("/-- leading statements of the goroutines started by Run -/\n")
+	b.WriteString("/-- leading statements of every goroutine body of the package (function literals and the functions `go` statements call) -/\n")
 	b.WriteString("def goroutineHeads : List String := " + leanStrList(gofirst) + "\n")
 	b.WriteString("def maxParallelDefault : String := " + leanStr(defaults["maxParallel"]) + "\n\n")
 	// imports
